@@ -42,6 +42,17 @@ def tree_of(XSH, src):
         return None, type(e).__name__
 
 
+def py_tree_of(src):
+    import warnings
+
+    try:
+        with warnings.catch_warnings():
+            warnings.simplefilter("ignore")
+            return ast.dump(ast.parse(src), include_attributes=False), ""
+    except (SyntaxError, ValueError, RecursionError, MemoryError) as e:
+        return None, type(e).__name__
+
+
 def comments_of(src):
     from xonsh.parsers.tokenize import COMMENT, tokenize
 
@@ -95,8 +106,13 @@ def run(ctx, scn):
                 obs["kind"] = "rejected-but-rewritten" if after != src else "rejected-but-exit-0"
                 obs["same_tree"] = False
         return {"src": src, "out": None, "feat": scn.get("feat", {}), "steps": [{"cmd": "format", "obs": obs}]}
-    tin, ein = tree_of(XSH, src)
-    tout, eout = tree_of(XSH, out)
+    if scn.get("pyoracle"):
+        # a text of the pure-Python corpus: CPython's own parser is the (exact and fast) meaning oracle
+        tin, ein = py_tree_of(src)
+        tout, eout = py_tree_of(out)
+    else:
+        tin, ein = tree_of(XSH, src)
+        tout, eout = tree_of(XSH, out)
     if ein:
         # the input itself is not a xonsh program: outside the premise (the output must not become one either)
         obs["premise"] = False
